@@ -205,9 +205,14 @@ var Shapes = []Shape{
 	{"nested-brackets-with-element", func(n int) string { return rep("[", n) + "1" + rep("]", n) }},
 	{"open-calls", func(n int) string { return rep("f(", n) }},
 	{"open-brackets-with-element", func(n int) string { return rep("[", n) + "1" }},
+	// many diagnostics and many speculative look-aheads (a member name on the line after its dot) in one text
+	{"errors-then-members-on-next-lines", func(n int) string { return "[" + rep("?", n) + "a" + rep(".\nb", n) }},
+	{"members-on-next-lines-then-errors", func(n int) string { return "a" + rep(".\nb", n) + rep(" ?", n) }},
+	{"error-and-member-on-next-line-alternating", func(n int) string { return "a" + rep(" ? .\nb", n) }},
+	{"errors-then-calls-on-next-lines", func(n int) string { return "[" + rep(")", n) + "a" + rep("\n(1)", n) }},
 }
 
-var ShapeSizes = []int{0, 1, 2, 3, 15, 16, 17, 31, 32, 33, 63, 64, 65, 127, 128, 129, 255, 256, 257, 511, 512, 513, 1023, 1024, 1025, 4095, 4096, 65535, 65536}
+var ShapeSizes = []int{0, 1, 2, 3, 15, 16, 17, 31, 32, 33, 63, 64, 65, 127, 128, 129, 255, 256, 257, 511, 512, 513, 1023, 1024, 1025, 4095, 4096, 8192, 16384, 65535, 65536}
 
 // ShapeBytes builds shape s at size n, truncated to 64 KiB.
 func ShapeBytes(s Shape, n int) []byte {
